@@ -204,6 +204,7 @@ def rx_passes(pid, tier):
                  ['--mode', 'c10', '--maxlen', '5' if q else '7'])]
     if pid == 'C17':
         P = [('every string of length<=%d over a 21-symbol pattern alphabet offered as a pattern' % (4 if q else 5), ['--mode', 'c17', '--maxlen', '4' if q else '5'])]
+        P.append(('every string of length<=%d over the 10-symbol set alphabet {a [ ] - ^ \\\\ 0x01 0x7f x 2}' % (6 if q else 7), ['--mode', 'c17', '--pool', '2', '--maxlen', '6' if q else '7']))
         if not q: P.append(('every string of length<=7 over the 11 metacharacter alphabet', ['--mode', 'c17', '--pool', '1', '--maxlen', '7']))
         return P
 
@@ -317,13 +318,13 @@ def run_progs(pid, rep, specs, deadline_s):
 
 PROG_SPECS = {
  'C19': lambda q: [dict(name='c19', src='c19_helpers.cpp', label='helper functors: all positions x arities 1..9 x value categories', flags=['-O0'])],
- 'C13': lambda q: [dict(name='c13', src='c13_context.cpp', args=[4 if q else 6], label='16 >=/>>= assignments x 6 call forms x inputs<=%d over {a,b,foreign}' % (4 if q else 6), compilers=['g++'] if q else ['g++', 'clang++'])],
+ 'C13': lambda q: [dict(name='c13', src='c13_context.cpp', args=[4 if q else 6], label='16 >=/>>= assignments x 10 call forms (every context_parse/parse overload) x inputs<=%d over {a,b,foreign}' % (4 if q else 6), compilers=['g++'] if q else ['g++', 'clang++'])],
  'C14': lambda q: [dict(name='c14', src='c14_values.cpp', args=[4 if q else 6], label='instrumented copyable value type, inputs<=%d over 7 bytes' % (4 if q else 6), compilers=['g++'] if q else ['g++', 'clang++']),
                    dict(name='c14m', src='c14_values.cpp', args=[3 if q else 5], flags=['-DMOVE_ONLY'], label='move-only value type (compile probe + run), inputs<=%d' % (3 if q else 5), compilers=['g++', 'clang++'])],
 }
 PROG_RULE = {
  'C19': 'Complete enumeration (the space is finite): _e1.._e9 x arity N..9; construct<T,I> x I<=arity<=9; push_back<C,A> and emplace_back<C,A> x all 72 ordered position pairs x every arity max(C,A)..9; val / create x arity 0..9; value categories lvalue, const lvalue, rvalue, move-only rvalue. Every other argument is a Poison object without copy, move or conversions (any use fails to compile); results are checked by type (static_assert), by address identity and by the unchanged data() pointer of the returned container. Compiled and run with g++ and clang++.',
- 'C13': 'One 4-rule grammar in all 16 assignments of >= / >>= (16 parser instantiations) x call forms {non-const lvalue, const lvalue, prvalue, moved lvalue of a move-only type, lvalue with options+stream, parse()} x every input up to the bound over {a, b, foreign byte}. Functors log rule, argument count, address/constness/value category of the context and a generation counter kept in the context; the expected call sequence is the reduction sequence of the documented driver on a reference LR(1) table.',
+ 'C13': 'One 4-rule grammar in all 16 assignments of >= / >>= (16 parser instantiations) x call forms covering every overload of context_parse and parse {non-const lvalue, const lvalue, prvalue, moved lvalue of a move-only type; with stream; with options+stream; parse() and parse()+stream} x every input up to the bound over {a, b, foreign byte}. Functors log rule, argument count, address/constness/value category of the context and a generation counter kept in the context; the expected call sequence is the reduction sequence of the documented driver on a reference LR(1) table.',
  'C14': 'A grammar with nterm<V>, a typed term producing V, list building, a nullable rule, operator precedence and an error rule; V is instrumented (identity per value, copy/move/destroy counters, live set). Every input up to the bound over the 6 terminals plus a foreign byte is parsed; invariants per execution: no copies, every value destroyed exactly once, each value handed to at most one functor call, no functor sees a moved-from value, nothing alive after the call. A second build with a move-only V (copy constructor deleted) must compile and satisfy the same invariants.',
 }
 
@@ -479,6 +480,12 @@ def run_rx_for(sub, pid, tier, rep, deadline_s):
     finally:
         rx_passes = orig
 
+def run_c17(pid, tier, rep, deadline_s):
+    run_rx(pid, tier, rep, deadline_s); cov = dict(rep.coverage)
+    totals, samples, bounds, extra = run_progs(pid, rep, [dict(name='c17u', src='c17_undeclared.cpp', flags=['-O0'], label='grammars mentioning undeclared symbols: 18 refusal cases (root / left side / right side x nterm / char / string / regex term x unrelated, extending and prefix names) + 3 acceptance controls')], deadline_s)
+    rep.coverage = merge_cov(cov, {'states': totals['cases'], 'transitions': totals['checks'], 'traces_validated_against_impl': totals['cases'], 'samples': samples, 'evaluations': totals['cases'], 'distinct_nontrivial': extra.get('refused', 0), 'bounds': bounds,
+                                   'exhaustive': all(b['completed'] for b in bounds), 'rule': 'Grammar part: run-time construction of parsers whose rules mention an undeclared symbol in every position kind must throw (compiled black-box program, g++ and clang++).'})
+
 # ----------------------------------------------------------------------------- dispatch
 QUICK_DEADLINE, THOROUGH_DEADLINE = 240, 1500
 
@@ -505,6 +512,7 @@ def main(argv):
         rep = Report(pid, tier)
         deadline = QUICK_DEADLINE if tier == 'quick' else THOROUGH_DEADLINE
         if pid in GRAM_PROPS: run_gram(pid, tier, rep, deadline)
+        elif pid == 'C17': run_c17(pid, tier, rep, deadline)
         elif pid in RX_PROPS: run_rx(pid, tier, rep, deadline)
         elif pid in PROG_SPECS: run_prog_check(pid, tier, rep, deadline)
         elif pid == 'C07': run_c07(pid, tier, rep, deadline)
